@@ -122,6 +122,28 @@ def classify(argv):
     return (tool, "unknown", {})
 
 
+def git_quote(path):
+    """Path as `git status --porcelain` prints it: C-style quoted when it holds blanks, quotes, backslashes, control or
+    non-ASCII characters (core.quotepath default)."""
+    if all(0x21 <= ord(ch) < 0x7f and ch not in '"\\' for ch in path):
+        return path
+    out = ['"']
+    for b in path.encode("utf-8", "surrogateescape"):
+        ch = chr(b)
+        if ch in '"\\':
+            out.append("\\" + ch)
+        elif b == 0x09:
+            out.append("\\t")
+        elif b == 0x0a:
+            out.append("\\n")
+        elif b < 0x20 or b >= 0x7f:
+            out.append("\\%03o" % b)
+        else:
+            out.append(ch)
+    out.append('"')
+    return "".join(out)
+
+
 def _hexid(n):
     return hashlib.sha1(b"commit-%d" % n).hexdigest()[:7]
 
@@ -183,6 +205,21 @@ class FakeRepo:
         """Record the current directory content as the committed content."""
         snap = invoker.snapshot(cwd)
         self.committed = {p: hashlib.sha1(d or b"").hexdigest() for p, d in snap.items()}
+
+    def working_tree_changes(self, cwd):
+        """[(status letter, path)] for tracked files whose content differs from the last commit / baseline."""
+        out = []
+        for p in sorted(self.committed):
+            full = os.path.join(cwd, p)
+            try:
+                with open(full, "rb") as fobj:
+                    sha = hashlib.sha1(fobj.read()).hexdigest()
+            except OSError:
+                out.append(("D", p))
+                continue
+            if sha != self.committed[p] and p not in self.staged:
+                out.append(("M", p))
+        return out
 
     def digest(self):
         h = hashlib.sha256()
@@ -265,8 +302,15 @@ class FakeRepo:
             out = "".join(t + "\n" for t in sorted(self.tags) if self.tags[t] in anc)
             return (0, out.encode("utf-8"), b"")
         if role == "status":
-            out = "".join("%s %s\n" % (xy, p) for xy, p in self.status)
-            return (0, out.encode("utf-8"), b"")
+            listed = set(p for _xy, p in self.status)
+            entries = [(xy, p) for xy, p in self.status] + \
+                [(" " + letter, p) for letter, p in self.working_tree_changes(cwd) if p not in listed]
+            if "-z" in argv:
+                # NUL separated, verbatim paths (for a rename "new\0old")
+                out = "".join("%s %s\0" % (xy, p.replace(" -> ", "\0") if xy[:1] in "RC" else p) for xy, p in entries)
+            else:
+                out = "".join("%s %s\n" % (xy, git_quote(p)) for xy, p in entries)
+            return (0, out.encode("utf-8", "surrogateescape"), b"")
         if role == "add":
             return self._do_add(cwd, info)
         if role == "commit":
@@ -309,8 +353,11 @@ class FakeRepo:
             out = "".join(t + "\n" for t in self.tags if self.tags[t] in anc)
             return (0, out.encode("utf-8"), b"")
         if role == "status":
+            listed = set(p for _xy, p in self.status)
             out = "".join("%s %s\n" % (xy, p) for xy, p in self.status)
-            return (0, out.encode("utf-8"), b"")
+            out += "".join("%s %s\n" % ("!" if letter == "D" else letter, p) for letter, p in self.working_tree_changes(cwd)
+                           if p not in listed)
+            return (0, out.encode("utf-8", "surrogateescape"), b"")
         if role == "add":
             return self._do_add(cwd, info)
         if role == "commit":
